@@ -200,9 +200,13 @@ def run(rep, tier, seed, keep=False):
             for key in ('a', 'b', 'zz', 1):
                 for dflt in (g.c(9), g.c(None), g.lst()):
                     add(g.idx2(X, g.c(key), dflt), d)
-        for s in SETS:
+        for s in SETS + [{1, 2, 3, 4, 5, 6}]:
             for (f, args) in set_ops():
                 add(g.mcall(X, f, *args), s)
+            # a key selector decides what is distinct, on sets as on lists (the count does not depend on the set's order)
+            add(g.mcall(g.mcall(X, 'distinct', g.bn('mod', X, g.c(2))), 'len'), s)
+            add(g.mcall(g.mcall(X, 'distinct', g.c(7)), 'len'), s)
+            add(g.mcall(g.mcall(g.mcall(X, 'toList'), 'distinct', g.bn('mod', X, g.c(3))), 'len'), s)
         for fn in (g.call('range', g.c(3)), g.call('range', g.c(1), g.c(4)), g.call('range', g.c(5), g.c(1), g.c(-2)), g.call('list', g.c(1), g.lst(g.c(2))),
                    g.call('dict', g.lst(g.lst(g.c('a'), g.c(1)), g.lst(g.c('b'), g.c(2)))), g.call('dict', a=g.c(1), b=g.lst()), g.call('set', g.c(1), g.c(1), g.c(2)),
                    g.bn('*', g.lst(g.c(1), g.c(2)), g.c(2)), g.bn('+', g.lst(g.c(1)), g.lst(g.c(2))), g.bn('in', g.c(1), g.lst(g.c(1))),
